@@ -254,10 +254,22 @@ def run(ctx):
     n_b = 0
     for f in builds:
         rets = [x for x in f.nodes if x.get("k") == "return"]
-        last = [x for x in rets if "getNumFailedCommands" in expr_str(x)]
-        others = [x for x in rets if x not in last]
-        okb = len(last) == 1 and "getNumFailedCommands() == 0" in expr_plain(last[0].child("e")).replace("delegate.", "") and "getNumErrors() == 0" in expr_plain(last[0].child("e")).replace("delegate.", "") and \
-            "||" not in expr_plain(last[0].child("e")) and all(core(x.child("e")).get("v") is False for x in others)
+        bfb = BranchFacts(f, kill="assign")
+        from sa.cfg import cond_atoms
+        okb = bool(rets)
+        n_true = 0
+        for x in rets:
+            e_ = x.child("e")
+            if core(e_).get("v") is False:
+                continue
+            n_true += 1
+            # whatever this return can yield as `true`, it is established (by the path or by the returned expression itself) that no command
+            # failed and no error was reported
+            atoms = set(a for a, p in (bfb.at_node(x) or frozenset()) if p) | set(a for a, p in cond_atoms(e_, True) if p)
+            nf = any("getNumFailedCommands()" in a and "==" in a and "0" in a for a in atoms)
+            ne = any("getNumErrors()" in a and "==" in a and "0" in a for a in atoms)
+            okb = okb and nf and ne
+        okb = okb and n_true >= 1
         n_b += 1
         r.check(okb, "frontend build(%s)|success-needs-zero-failures" % (f.params[0]["n"] if f.params else ""), "",
                 "BuildSystemFrontend::build can return true although a command failed or an error was reported", f)
